@@ -72,6 +72,29 @@ theorem get?_mapVal (f : α → β) (d : Dict α) (k : String) : get? (mapVal f 
     · simp [h]
     · simp only [h, if_false]; exact ih
 
+theorem get?_erase_ite (d : Dict α) (k x : String) : get? (erase d k) x = if x = k then none else get? d x := by
+  induction d with
+  | nil => simp [erase]
+  | cons kv t ih =>
+    obtain ⟨k0, v0⟩ := kv
+    unfold erase at ih ⊢
+    by_cases hk : k0 = k
+    · subst hk
+      have : List.filter (fun kv : String × α => decide (kv.1 ≠ k0)) ((k0, v0) :: t) = List.filter (fun kv => decide (kv.1 ≠ k0)) t := by
+        simp [List.filter_cons]
+      rw [this, ih, get?_cons]
+      by_cases hx : x = k0
+      · simp [hx]
+      · have : ¬ k0 = x := fun e => hx e.symm
+        simp [hx, this]
+    · have : List.filter (fun kv : String × α => decide (kv.1 ≠ k)) ((k0, v0) :: t) = (k0, v0) :: List.filter (fun kv => decide (kv.1 ≠ k)) t := by
+        simp [List.filter_cons, hk]
+      rw [this, get?_cons, get?_cons, ih]
+      by_cases hx : k0 = x
+      · have : ¬ x = k := fun e => hk (hx.trans e)
+        simp [hx, this]
+      · simp [hx]
+
 /-- for a dictionary without duplicate keys, lookup is insensitive to the order of the entries -/
 theorem get?_perm {d d' : Dict α} (hp : d.Perm d') (hn : (d.map (·.1)).Nodup) (k : String) :
     get? d k = get? d' k := by
